@@ -363,6 +363,41 @@ struct Engine {
                     if (!bad.empty())
                         Report(Fmt("interrupt:line=%d,ctx=%d,cpc=%u", line, ctx, cpc), "interrupt entry followed by " + std::string(ctx ? "retic" : "reti") + ": " + bad, w, 2, s, si);
                 }
+        // a request that is pending when a single-instruction repeat starts: the repeated instruction belongs to the interrupted stream, so
+        // the stream (rep #2 ; inc a0 three times) completes and the handler runs afterwards, once; everything as in the uninterrupted run
+        for (int line = 0; line < 3; ++line)
+            for (int ctx = 0; ctx < 2; ++ctx) {
+                VState s = states[si];
+                if (s.rep || s.lp)
+                    continue;
+                s.ie = 1;
+                for (int i = 0; i < 3; ++i)
+                    s.im[i] = i == line, s.ip[i] = i == line, s.ic[i] = (i == line) && ctx;
+                s.imv = 0, s.ipv = 0;
+                u32 vec = 0x0006 + 8 * line;
+                s.pc = vec - 2;
+                VState plain = s;
+                plain.ie = 0;
+                plain.ip[line] = 0;
+                std::vector<u16> w = {0x0C02, 0x67D0, (u16)(ctx ? 0x45D0 : 0x45C0)};
+                VState out, ref;
+                RunResult rr, rr2;
+                if (!Exec(s, w, 5, out, rr)) {
+                    Report(Fmt("interrupt:pending-at-rep:line=%d,ctx=%d:outcome", line, ctx), OutcomeName(rr.outcome), w, 5, s, si);
+                    continue;
+                }
+                if (!Exec(plain, w, 4, ref, rr2))
+                    continue;
+                digests.insert(Fnv(&out, sizeof(out), 177 + line));
+                ref.ie = 1;
+                std::vector<std::string> allow = {"pc"};
+                if (ctx)
+                    allow = {"pc", "sh_flags", "a1s", "b1s", "repcs"};
+                std::string d = out.pc != vec ? std::string("pc") : out.sp != s.sp ? std::string("sp") : Frame(ref, out, allow);
+                if (!d.empty())
+                    Report(Fmt("interrupt:pending-at-rep:line=%d,ctx=%d", line, ctx),
+                           "request pending while 'rep #2 ; inc a0' starts ; handler " + std::string(ctx ? "retic" : "reti") + ": register " + d + " differs from the uninterrupted run", w, 5, s, si);
+            }
         // a context-switching interrupt whose handler changes every flag before it returns (modr sets R, two compares set the rest):
         // the interrupted stream gets its own flags back
         for (int line = 0; line < 3; ++line) {
